@@ -102,6 +102,9 @@ class Script:
         if k == "struct":
             s = self.prog.find(t[1])
             return {fn: self.value(ft, "field") for fn, ft in s.fields}
+        if k == "oref" and pos == "cbarg":
+            # Rust creates a temporary object, lends it to the callback and drops it afterwards (ids are assigned when the call is scripted)
+            return {"tmp": r.getrandbits(16)}
         if k == "oref":
             if t[4] and r.random() < 0.4:
                 return None
@@ -211,6 +214,8 @@ class Script:
         if k == "struct":
             s = self.prog.find(t[1])
             return "{" + ",".join("%s:%s" % (fn, self.canon(ft, v[fn])) for fn, ft in s.fields) + "}"
+        if k == "oref" and isinstance(v, dict):
+            return "#%d" % v["id"]
         if k == "oref":
             return "N" if v is None else "#%d" % self.objs[v].id
         if k == "obox":
@@ -297,6 +302,25 @@ class Script:
         elif k == "result":
             self.realize_new(t[1] if v[0] == "ok" else t[2], v[1], out_lines, created)
 
+    def lend_temporaries(self, argtypes, argvals, lines, tag):
+        """Opaque references among the arguments of one callback / trait-method invocation: the Rust body creates one temporary per
+        reference (NEW), lends it, and drops them in reverse order after the invocation (DROP).
+        -> (Rust statements creating them, Rust argument expressions, DROP lines to append after CBRET)"""
+        from emit_rust import value_expr
+        pre, exprs, drops = [], [], []
+        for i, (a, av) in enumerate(zip(argtypes, argvals)):
+            if a[0] == "oref" and isinstance(av, dict):
+                av["id"] = self.next_id
+                self.next_id += 1
+                lines.append(("R", "NEW %s#%d" % (a[1], av["id"])))
+                nm = "vf_t%s_%d" % (tag, i)
+                pre.append("let mut %s = crate::%s::%s::vf_new(%d);" % (nm, [m.name for m in self.prog.modules if self.prog.find(a[1]) in m.items][0], a[1], av["tmp"]))
+                exprs.append(("&mut " if a[2] else "&") + nm)
+                drops.insert(0, ("R", "DROP %s#%d" % (a[1], av["id"])))
+            else:
+                exprs.append(cbarg_expr(self.prog, a, av))
+        return pre, exprs, drops
+
     # ------------------------------------------------------------ script construction
     def call(self, owner, m, force_self=None, force_args=None, force_ret=None):
         r = self.r
@@ -368,25 +392,31 @@ class Script:
             cret = None if ht[2] == ("unit",) else self.value(ht[2], "cbret")
             j = len(hobj.cb["inv"])
             hobj.cb["inv"].append((cargs_v, cret))
+            tpre, texprs, tdrops = self.lend_temporaries(ht[1], cargs_v, lines, "h%d" % j)
             lines.append(("C", "CB %d#%d%s" % (hobj.cb["cb"], j, "".join(" " + self.canon(a, av) for a, av in zip(ht[1], cargs_v)))))
             lines.append(("R", "CBRET %s" % ("()" if ht[2] == ("unit",) else self.canon(ht[2], cret))))
-            effects.append("let vf_r = (self.held)(%s); crate::vf::log(format!(\"CBRET {}\", crate::vf::c(&vf_r)));" % ", ".join(cbarg_expr(self.prog, a, av) for a, av in zip(ht[1], cargs_v)))
+            lines += tdrops
+            effects.append("{ %s let vf_r = (self.held)(%s); crate::vf::log(format!(\"CBRET {}\", crate::vf::c(&vf_r))); }" % (" ".join(tpre), ", ".join(texprs)))
         for pn, pt in m.params:
             if pt[0] == "cb" and not args[pn].get("held"):
                 cbv = args[pn]
                 for j, (cargs_v, cret) in enumerate(cbv["inv"]):
+                    tpre, texprs, tdrops = self.lend_temporaries(pt[1], cargs_v, lines, "c%d" % j)
                     lines.append(("C", "CB %d#%d%s" % (cbv["cb"], j, "".join(" " + self.canon(a, av) for a, av in zip(pt[1], cargs_v)))))
                     lines.append(("R", "CBRET %s" % ("()" if pt[2] == ("unit",) else self.canon(pt[2], cret))))
-                    call = "%s(%s)" % (rust_ident(pn), ", ".join(cbarg_expr(self.prog, a, av) for a, av in zip(pt[1], cargs_v)))
-                    effects.append("let vf_r = %s; crate::vf::log(format!(\"CBRET {}\", crate::vf::c(&vf_r)));" % call)
+                    lines += tdrops
+                    call = "%s(%s)" % (rust_ident(pn), ", ".join(texprs))
+                    effects.append("{ %s let vf_r = %s; crate::vf::log(format!(\"CBRET {}\", crate::vf::c(&vf_r))); }" % (" ".join(tpre), call))
             if pt[0] == "tr":
                 trv = args[pn]
                 for j, (mi, targs_v, tret) in enumerate(trv["inv"]):
                     mname, _, margs, mret = pt[2][mi]
+                    tpre, texprs, tdrops = self.lend_temporaries(margs, targs_v, lines, "t%d" % j)
                     lines.append(("C", "CB %d#%d %s%s" % (trv["cb"], j, mname, "".join(" " + self.canon(a, av) for a, av in zip(margs, targs_v)))))
                     lines.append(("R", "CBRET %s" % ("()" if mret == ("unit",) else self.canon(mret, tret))))
-                    call = "%s.%s(%s)" % (rust_ident(pn), mname, ", ".join(cbarg_expr(self.prog, a, av) for a, av in zip(margs, targs_v)))
-                    effects.append("let vf_r = %s; crate::vf::log(format!(\"CBRET {}\", crate::vf::c(&vf_r)));" % call)
+                    lines += tdrops
+                    call = "%s.%s(%s)" % (rust_ident(pn), mname, ", ".join(texprs))
+                    effects.append("{ %s let vf_r = %s; crate::vf::log(format!(\"CBRET {}\", crate::vf::c(&vf_r))); }" % (" ".join(tpre), call))
             if pt[0] == "write":
                 for ch in args[pn]["chunks"]:
                     # the three entry points bridge code really uses; each delivers the chunk as one write
